@@ -1097,6 +1097,48 @@ func (r *runner) attack(at Attack) error {
 
 		return w.M.ctx.OutboundDispatcher().Send(msg, sender, &service.Destination{
 			RecipientKeys: tk, ServiceEndpoint: model.NewDIDCommV1Endpoint(x.Endpoint)})
+	case "resp-case-remap", "resp-case-remap-wrapper": // ~thread member names in another case: state check and record lookup part ways
+		if vrec.NS != "my" {
+			return fmt.Errorf("the target is not the invitee of the victim connection")
+		}
+
+		// the target accepts an invitation of mallory; mallory never answers the request
+		e := &exchRun{Exch: Exch{Inviter: "mallory", Invitee: at.Target, Style: "dx"}}
+		if err := r.setup(e); err != nil {
+			return err
+		}
+
+		r.acceptStep(e)
+
+		reqp := w.net.Take(func(p *Packet) bool { return p.From == x.Name && p.To == w.M.Endpoint && p.Type == dxRequest }, 5*time.Second)
+		if reqp == nil {
+			return fmt.Errorf("the target sent no request")
+		}
+
+		rd := attachedDoc(reqp.Plain)
+		if rd == nil {
+			return fmt.Errorf("request without document")
+		}
+
+		xd, err := service.CreateDestination(rd)
+		if err != nil {
+			return err
+		}
+
+		m := request(reqp.Thread, "", fakeDID, rename(fakeDID))
+		m["@type"] = dxResponse
+		m["~thread"] = map[string]interface{}{[]string{"THID", "Thid"}[r.rng.Intn(2)]: vrec.ThreadID}
+
+		if at.Kind == "resp-case-remap-wrapper" {
+			delete(m, "~thread")
+			m["~Thread"] = map[string]interface{}{"thid": vrec.ThreadID}
+		}
+
+		return w.M.ctx.OutboundDispatcher().Send(m, sender, &service.Destination{
+			RecipientKeys: xd.RecipientKeys, ServiceEndpoint: model.NewDIDCommV1Endpoint(x.Endpoint)})
+	case "complete-case-remap": // a complete whose @id is a thread mallory runs with the target and whose ~thread.THID is the victim's
+		return send(map[string]interface{}{"@type": dxComplete, "@id": me.x.ThreadID,
+			"~thread": map[string]interface{}{"THID": vrec.ThreadID, "PTHID": inv.ID}}, inv)
 	case "resp-forge": // a response nobody asked for, on a fresh and on the victim thread
 		for _, th := range []string{uuid.New().String(), vrec.ThreadID} {
 			m := request(uuid.New().String(), "", victimDID, rename(victimDID))
@@ -1265,7 +1307,7 @@ func base58ish(r *hx.Rng, n int) string {
 // ---------- generators ----------
 
 var attackKinds = []string{"req-repoint", "req-repoint-badpthid", "req-repoint-keys", "req-repoint-endpoint", "req-repoint-routing", "req-docid-mismatch",
-	"req-docid-fresh", "lc-req-repoint", "req-id-remap", "req-id-remap-known", "ping-from-spoof", "rotate-takeover", "rotate-takeover-relkid", "req-nodoc", "req-keysteal", "init-repoint",
+	"req-docid-fresh", "lc-req-repoint", "req-id-remap", "req-id-remap-known", "resp-case-remap", "resp-case-remap-wrapper", "complete-case-remap", "ping-from-spoof", "rotate-takeover", "rotate-takeover-relkid", "req-nodoc", "req-keysteal", "init-repoint",
 	"complete-replay", "req-same-thread", "resp-forge", "ping-unknown", "owner-reuse"}
 
 func main() {
